@@ -115,7 +115,7 @@ PROPS = {
             {'engine': 'verus', 'name': 'sort_merge', 'tier': 'quick', 'role': "JoinLocalSortMerge::{discard_right,next} (NARROWED: the iteration protocol around the merge): sides stored with their keyer's key, sorted at their end marker, tuples only after both sides ended, unmatched right element padded once iff outer, constructor state restored at FlushAndRestart (nothing carried over). The merge loop  is ASSUMED, not verified"},
             {'engine': 'verus', 'name': 'interval_join', 'tier': 'quick', 'role': "IntervalJoin::{advance,next} (NARROWED: soundness + iteration protocol): a left element is queued at the back of the left queue, a right element at the back of its key's queue, with their timestamps; every emitted tuple pairs a left and a right element stored under the SAME key with lt - lower <= rt <= lt + upper, stamped max(lt, rt); queues are consumed from the front only; both sides are emptied at the end of the iteration and the constructor state is restored at FlushAndRestart (the real code's asserts are proved). Completeness (every pair in the interval emitted) is NOT decided"},
             {'engine': 'verus', 'name': 'rich_map', 'tier': 'quick', 'role': "RichMap::next (keyed stateful map): one instance of the user's function per key, a clone of the initial one at the key's first element; an element is handed exactly once to the instance of ITS key, other keys' state untouched; key, kind and timestamp kept; control elements unchanged and touching no state"},
-            {'engine': 'verus', 'name': 'keyed_join', 'tier': 'quick', 'role': 'JoinKeyedInner::{process_item,next} (the inner keyed-stream join): an arriving element is paired in order with EVERY element the other side stored under its key and then stored itself (so every same-key pair is emitted exactly once, when its later element arrives); a store is dropped when the side it serves has ended; both stores empty and flags reset at FlushAndRestart. JoinKeyedOuter is not under contract'},
+            {'engine': 'verus', 'name': 'keyed_join', 'tier': 'quick', 'role': 'JoinKeyedInner::{process_item,next} (the inner keyed-stream join): an arriving element is paired in order with EVERY element the other side stored under its key and then stored itself (so every same-key pair is emitted exactly once, when its later element arrives); a store is dropped when the side it serves has ended; both stores empty and flags reset at FlushAndRestart. JoinKeyedOuter::process_item: element arms fully, end arms only which stores / key sets are dropped'},
             {'engine': 'verus', 'name': 'csv_next', 'tier': 'quick', 'role': "CsvSource::next: every record of the replica's reader emitted once, in order, as its deserialised item; one FlushAndRestart when the range is exhausted, then Terminate forever"},
         ],
         'explanation': 'Verus proof of the per-call contract of Start::next (any number of upstream replicas, any batches): FlushAndRestart is returned exactly when every '
@@ -252,7 +252,7 @@ PROPS = {
             {'engine': 'verus', 'name': 'binary_select', 'tier': 'quick', 'role': 'the two-input receiver that feeds every join: each side delivered completely, in order, wrapped in its variant, with the side end marker before the FlushAndRestart that completes the iteration'},
             {'engine': 'verus', 'name': 'sort_merge', 'tier': 'quick', 'role': "JoinLocalSortMerge::{discard_right,next} (NARROWED: the iteration protocol around the merge): sides stored with their keyer's key, sorted at their end marker, tuples only after both sides ended, unmatched right element padded once iff outer, constructor state restored at FlushAndRestart (nothing carried over). The merge loop  is ASSUMED, not verified"},
             {'engine': 'verus', 'name': 'interval_join', 'tier': 'quick', 'role': "IntervalJoin::{advance,next} (NARROWED: soundness + iteration protocol): a left element is queued at the back of the left queue, a right element at the back of its key's queue, with their timestamps; every emitted tuple pairs a left and a right element stored under the SAME key with lt - lower <= rt <= lt + upper, stamped max(lt, rt); queues are consumed from the front only; both sides are emptied at the end of the iteration and the constructor state is restored at FlushAndRestart (the real code's asserts are proved). Completeness (every pair in the interval emitted) is NOT decided"},
-            {'engine': 'verus', 'name': 'keyed_join', 'tier': 'quick', 'role': 'JoinKeyedInner::{process_item,next} (the inner keyed-stream join): an arriving element is paired in order with EVERY element the other side stored under its key and then stored itself (so every same-key pair is emitted exactly once, when its later element arrives); a store is dropped when the side it serves has ended; both stores empty and flags reset at FlushAndRestart. JoinKeyedOuter is not under contract'},
+            {'engine': 'verus', 'name': 'keyed_join', 'tier': 'quick', 'role': 'JoinKeyedInner::{process_item,next} (the inner keyed-stream join): an arriving element is paired in order with EVERY element the other side stored under its key and then stored itself (so every same-key pair is emitted exactly once, when its later element arrives); a store is dropped when the side it serves has ended; both stores empty and flags reset at FlushAndRestart. JoinKeyedOuter::process_item: element arms fully, end arms only which stores / key sets are dropped'},
         ],
         'explanation': 'NARROWED scope: the local hash join (inner / left / outer), Verus. Per-call contracts of JoinLocalHash::add_item (an arriving element is paired, in order, with every element the other side '
                        'has stored under its key; if there is none and the other side has ended and this side is outer it is emitted once padded with None; it is stored for future matches iff the other side '
@@ -261,6 +261,6 @@ PROPS = {
                        'interleaving of the two sides and of their end markers the matched pairs emitted under each key are exactly the relational join (each pair once). '
                        'JoinLocalHash::next is under contract too (dispatch with the flags of the variant, asserts at FlushAndRestart). Sort-merge join: soundness of the merge loop and the iteration protocol around it (unit sort_merge); '
                        'NOT decided: the exact multiset of None-padded tuples over a whole history, completeness of the sort-merge merge loop and of the interval join, the left / outer keyed-stream joins (JoinKeyedOuter), ship strategies (same key hash on both sides).',
-        'assumptions': ['HashMap/HashSet by their map/set views; drain order arbitrary', 'JoinLocalSortMerge / IntervalJoin: completeness (every same-key pair / every pair inside the interval / every unmatched outer element emitted) is not decided; JoinKeyedOuter (left / outer keyed-stream joins), ship.rs: not under contract', 'correspondence between the add_item/side_ended contracts and the abstract machine js_step/js_out: same clauses (refinement lemmas for the emitted tuples; the stored-state clauses are syntactically the same expressions)'],
+        'assumptions': ['HashMap/HashSet by their map/set views; drain order arbitrary', 'JoinLocalSortMerge / IntervalJoin: completeness (every same-key pair / every pair inside the interval / every unmatched outer element emitted) is not decided; which unmatched elements JoinKeyedOuter pads at a side end, JoinKeyedOuter::next, ship.rs: not decided', 'correspondence between the add_item/side_ended contracts and the abstract machine js_step/js_out: same clauses (refinement lemmas for the emitted tuples; the stored-state clauses are syntactically the same expressions)'],
     },
 }
